@@ -320,3 +320,141 @@ func counterIncrementsGuarded(c *Ctx, fn *ssa.Function, counter *ssa.Phi, guard 
 	}
 	return true, n, ""
 }
+
+// ---------------------------------------------------------------------------
+// Generic predicate tracks used by the replication-side rules.
+// ---------------------------------------------------------------------------
+
+// predErr tracks "X != nil" where X's descriptor starts with prefix: True when
+// the error is non-nil.
+func predErr(name, prefix string) engine.Track {
+	return engine.PredCond(name, errNotNil(prefix))
+}
+
+// predRespSuccess tracks a boolean "<response>.Success".
+func predRespSuccess(name string) engine.Track {
+	return engine.PredBool(name, func(d string) bool {
+		return strings.HasSuffix(d, ".Success") && strings.Contains(d, "Response")
+	})
+}
+
+// predRespTermNewer tracks "<response>.Term > <request>.Term".
+func predRespTermNewer(name string) engine.Track {
+	return engine.PredCond(name, func(cd engine.Cond) (bool, int) {
+		if !cd.IsRel {
+			return false, 0
+		}
+		isResp := func(s string) bool { return strings.HasSuffix(s, ".Term") && strings.Contains(s, "Response") }
+		isReq := func(s string) bool { return strings.HasSuffix(s, ".Term") && strings.Contains(s, "Request") }
+		var set engine.OrdSet
+		switch {
+		case isResp(cd.X) && isReq(cd.Y):
+			set = cd.EdgeOrd(true)
+		case isResp(cd.Y) && isReq(cd.X):
+			set = cd.EdgeOrd(true).Flip()
+		default:
+			return false, 0
+		}
+		if set == engine.GT {
+			return true, engine.True
+		}
+		if set == engine.LT|engine.EQ {
+			return true, engine.False
+		}
+		return false, 0
+	})
+}
+
+// ---------------------------------------------------------------------------
+// S-MATCH: who reports follower progress / leadership acknowledgements and
+// under which response conditions.
+// ---------------------------------------------------------------------------
+
+func sMatch(c *Ctx, rule string) {
+	// callers of commitment.match
+	c.WhoMay(rule, "call (*commitment).match", c.P.CallsEverywhere(engine.Is("(*commitment).match")), map[string]string{
+		"(*Raft).dispatchLogs":       "leader counts itself after its own StoreLogs succeeded (S-DURABLE)",
+		"updateLastAppended":         "after a successful AppendEntries response",
+		"(*Raft).sendLatestSnapshot": "after a successful InstallSnapshot response",
+	})
+	c.WhoMay(rule, "call updateLastAppended", c.P.CallsEverywhere(engine.Is("updateLastAppended")), map[string]string{
+		"(*Raft).replicateTo":    "resp.Success arm",
+		"(*Raft).pipelineDecode": "after !resp.Success → return",
+	})
+	if fn := c.Fn(rule, "(*Raft).replicateTo"); fn != nil {
+		r := c.Run(&engine.Automaton{Fn: fn, Tracks: []engine.Track{
+			engine.Event("rpc", c.P.IsCallTo(engine.Is("iface:Transport.AppendEntries"))),
+			predErr("rpcErr", "recv.trans.AppendEntries("),
+			predRespTermNewer("newer"),
+			predRespSuccess("success"),
+		}})
+		for _, s := range c.P.CallsIn(fn, engine.Is("updateLastAppended")) {
+			c.RequireAt(r, rule, "replicateTo:updateLastAppended", s.Instr, "AppendEntries returned nil ∧ ¬(resp.Term > req.Term) ∧ resp.Success",
+				func(v engine.View) bool { return v.Seen("rpc") && v.F("rpcErr") && v.F("newer") && v.T("success") })
+		}
+	}
+	if fn := c.Fn(rule, "(*Raft).pipelineDecode"); fn != nil {
+		r := c.Run(&engine.Automaton{Fn: fn, Tracks: []engine.Track{predRespTermNewer("newer"), predRespSuccess("success")}})
+		for _, s := range c.P.CallsIn(fn, engine.Is("updateLastAppended")) {
+			c.RequireAt(r, rule, "pipelineDecode:updateLastAppended", s.Instr, "¬(resp.Term > req.Term) ∧ resp.Success on the decoded response; request and response come from the same future",
+				func(v engine.View) bool {
+					return v.F("newer") && v.T("success") && strings.HasSuffix(c.P.Arg(s.Instr, 1), ".Request()")
+				})
+		}
+	}
+	if fn := c.Fn(rule, "(*Raft).sendLatestSnapshot"); fn != nil {
+		r := c.Run(&engine.Automaton{Fn: fn, Tracks: []engine.Track{
+			engine.Event("rpc", c.P.IsCallTo(engine.Is("iface:Transport.InstallSnapshot"))),
+			predErr("rpcErr", "recv.trans.InstallSnapshot("),
+			predRespTermNewer("newer"),
+			predRespSuccess("success"),
+		}})
+		for _, s := range c.P.CallsIn(fn, engine.Is("(*commitment).match")) {
+			c.RequireAt(r, rule, "sendLatestSnapshot:match", s.Instr, "InstallSnapshot returned nil ∧ ¬(resp.Term > req.Term) ∧ resp.Success; matched index is the snapshot's index",
+				func(v engine.View) bool {
+					return v.Seen("rpc") && v.F("rpcErr") && v.F("newer") && v.T("success") && strings.HasSuffix(c.P.Arg(s.Instr, 1), ".Index")
+				})
+		}
+	}
+	if fn := c.Fn(rule, "updateLastAppended"); fn != nil {
+		for _, s := range c.P.CallsIn(fn, engine.Is("(*commitment).match")) {
+			a := c.P.Arg(s.Instr, 1)
+			ok := strings.HasPrefix(a, "p2.Entries[(len(p2.Entries) - 1)]") && strings.HasSuffix(a, ".Index") && c.P.Arg(s.Instr, 0) == "p1.peer.ID"
+			c.Check(rule, "updateLastAppended:match-args", c.P.InstrPos(s.Instr), "match(peer.ID, index of the last entry of the acknowledged request)", ok, "match("+c.P.Arg(s.Instr, 0)+", "+a+")", 1)
+		}
+	}
+}
+
+// sNotify: who votes on verify futures and with which value.
+func sNotify(c *Ctx, rule string) {
+	sites := c.P.CallsEverywhere(engine.Is("(*followerReplication).notifyAll"))
+	c.WhoMay(rule, "call (*followerReplication).notifyAll", sites, map[string]string{
+		"updateLastAppended":         "true, only reached after a successful response (S-MATCH)",
+		"(*Raft).sendLatestSnapshot": "true, under resp.Success",
+		"(*Raft).heartbeat":          "resp.Success of a heartbeat that returned nil",
+		"(*Raft).handleStaleTerm":    "false: a newer term was seen",
+	})
+	for _, s := range sites {
+		name := c.P.Name(s.Fn)
+		arg := c.P.Arg(s.Instr, 0)
+		switch name {
+		case "updateLastAppended":
+			c.Check(rule, name+":notifyAll-arg", c.P.InstrPos(s.Instr), "notifyAll(true)", arg == "true", "notifyAll("+arg+")", 1)
+		case "(*Raft).handleStaleTerm":
+			c.Check(rule, name+":notifyAll-arg", c.P.InstrPos(s.Instr), "notifyAll(false)", arg == "false", "notifyAll("+arg+")", 1)
+		case "(*Raft).sendLatestSnapshot":
+			r := c.Run(&engine.Automaton{Fn: s.Fn, Tracks: []engine.Track{
+				predErr("rpcErr", "recv.trans.InstallSnapshot("), predRespTermNewer("newer"), predRespSuccess("success")}})
+			c.RequireAt(r, rule, name+":notifyAll(true)", s.Instr, "only under InstallSnapshot nil error ∧ ¬newer term ∧ resp.Success", func(v engine.View) bool {
+				return arg == "true" && v.F("rpcErr") && v.F("newer") && v.T("success")
+			})
+		case "(*Raft).heartbeat":
+			r := c.Run(&engine.Automaton{Fn: s.Fn, Tracks: []engine.Track{
+				engine.Event("rpc", c.P.IsCallTo(engine.Is("iface:Transport.AppendEntries"))),
+				predErr("rpcErr", "recv.trans.AppendEntries(")}})
+			c.RequireAt(r, rule, name+":notifyAll(resp.Success)", s.Instr, "argument is the Success field of the response object passed to the AppendEntries call that just returned nil", func(v engine.View) bool {
+				return v.Seen("rpc") && v.F("rpcErr") && strings.HasSuffix(arg, "AppendEntriesResponse).Success")
+			})
+		}
+	}
+}
